@@ -389,6 +389,26 @@ def main():
             broken.append({'kind': 'correspondence_eval', 'detail': e[-600:]})
     failures = corr['failures']
     known = load_known(pid)
+    # corpus (minimised earlier failures) and the witnesses of recorded findings always run as well
+    corpus_lines = []
+    cdir = os.path.join(ROOT, 'corpus', pid)
+    if os.path.isdir(cdir):
+        for fn in sorted(os.listdir(cdir)):
+            corpus_lines += [l.strip() for l in open(os.path.join(cdir, fn)) if l.strip() and not l.startswith('#')]
+    corpus_lines += [k['witness'] for k in known if k.get('witness')]
+    if corpus_lines and model_usable and not replay:
+        os.makedirs(run_dir + '-corpus', exist_ok=True)
+        lf = os.path.join(run_dir + '-corpus', 'lines.txt')
+        with open(lf, 'w') as f:
+            f.write('\n'.join(corpus_lines) + '\n')
+        corr2 = correspondence(spec, tier, seed, os.path.join(run_dir + '-corpus', 'out'), ['--lines', lf])
+        if 'error' in corr2:
+            print('ERROR: ' + corr2['error'])
+            return 2
+        failures = failures + corr2['failures']
+        corr['meta']['corpus_cases'] = corr2['meta'].get('evaluations', 0)
+        for e in corr2['errors']:
+            broken.append({'kind': 'correspondence_eval', 'detail': e[-600:]})
     known_by_id = {k['class_id']: k for k in known if k.get('status') == 'known'}
     known_hits = {}
     new_violations = []
